@@ -111,6 +111,25 @@ def mark(block_text, src_toks, name):
         # show the first unmatched source tokens
         un = unmatched
         raise SystemExit('automark: %s: %d source tokens have no counterpart in the mirror: %s' % (name, len(s) - matched, un[:5]))
+    # bracket discipline: both tokens of a matched bracket pair must have the same status. The aligner may have matched the
+    # closing brace of an inserted block (`proof { .. }`) with a source brace; repair by swapping with the nearest
+    # complementary mismatch (the token texts are identical, so the source token sequence is unchanged).
+    opens = {'(': ')', '[': ']', '{': '}'}
+    stack = []; pairs = []
+    for i in range(k, len(toks)):
+        t = toks[i].text
+        if t in opens: stack.append(i)
+        elif t in opens.values():
+            if stack and opens[toks[stack[-1]].text] == t: pairs.append((stack.pop(), i))
+    A = [(o, c) for o, c in pairs if is_src[o] and not is_src[c]]     # source open, inserted close
+    B = [(o, c) for o, c in pairs if not is_src[o] and is_src[c]]     # inserted open, source close
+    for o, c in A:
+        cand = [(abs(c2 - c), o2, c2) for o2, c2 in B if toks[c2].text == toks[c].text]
+        if not cand: raise SystemExit('automark: %s: unbalanced marking near line %d' % (name, toks[c].line))
+        _, o2, c2 = min(cand)
+        is_src[c] = True; is_src[c2] = False
+        B.remove((o2, c2))
+    if B: raise SystemExit('automark: %s: unbalanced marking near line %d' % (name, toks[B[0][1]].line))
     for i in range(k): is_src[i] = True     # head (visibility etc.) is never marked
     lines = clean.split('\n')
     by_line = {}
